@@ -19,6 +19,10 @@ preserves LWF; together with the __init__ lemmas this is the induction over
 all call histories.  Cadence: proved for symbolic interval f >= 1 and symbolic
 non-decreasing steps; the history lemma over two consecutive calls shows that
 no crossing is lost and none is counted twice.
+Cross-check of the symbolic-length list model: the record / retrieve contracts
+are also proved with ordinary python lists holding a bounded history of two
+symbolic records ("python-list-of-2" tasks) and with the empty history of a new
+key ("new-key" tasks, python lists created by the real code).
 Postconditions are transcribed from the property statement (DESIGN 5, C20).
 """
 import z3
@@ -1017,6 +1021,8 @@ ASSUMPTIONS = [
     "(histories of symbolic length n >= 0, arbitrary counters) to append exactly one record at the end, leave every existing record "
     "untouched and re-establish the invariant; __init__ establishes it",
     "checkpoint cadence: interval >= 1 (documented 'number of steps after which ...'), steps of one key are non-decreasing (step >= previous step)",
+    "LoggerList: lists of 2 and 3 members (the fan-out loops run over the concrete member list and are unrolled; the loop body does not depend on the position); "
+    "members are recording stubs (arguments compared parameter by parameter against the LoggerBase signature), MemoryLoggers, and the mixed list MemoryLogger + OrbaxCheckpointer + StandardLogger",
     "LoggerList members that record (MemoryLogger) are in identical abstract states - true from construction on when they are only driven through the list",
     "with t=None every logger stamps its own wall-clock read: time stamps of different LoggerList members are compared only for explicit t",
 ]
